@@ -195,6 +195,25 @@ def hMgPp : Handler
     s!"{showSp p.e}|{showCps p.modStr}|{showSp (pop f (parseBool hv) (parseBool rs) r p.modStr)}"
   | _ => "bad-op"
 
+/-- `sp.pushpop <isAfter> <mIndex> <mLen> <start> <len> <text> <rstart> <rlen> <rtext>`: the single-modifier push / pop of
+`RTV.Span` (`pushPrefix` / `popPrefix`, `pushSuffix` / `popSuffix`: the functions the C01 push/pop theorems are about), same
+answer format as `mg.pp`; `sp.mend <start> <len>` = `modelEnd` (audit item 35: no correspondence op). -/
+def hPushPop : Handler
+  | [ia, mi, ml, st, ln, tx, rst, rln, rtx] =>
+    let e : Sp := ⟨parseInt st, parseInt ln, parseCps tx⟩
+    let r : Sp := ⟨parseInt rst, parseInt rln, parseCps rtx⟩
+    if parseBool ia then
+      let p := pushSuffix e (parseNat mi) (parseNat ml)
+      s!"{showSp p.1}|{showCps p.2}|{showSp (popSuffix r p.2)}"
+    else
+      let p := pushPrefix e (parseNat mi) (parseNat ml)
+      s!"{showSp p.1}|{showCps p.2}|{showSp (popPrefix r p.2)}"
+  | _ => "bad-op"
+
+def hModelEnd : Handler
+  | [st, ln] => toString (modelEnd (parseInt st) (parseInt ln))
+  | _ => "bad-op"
+
 def hMgZh : Handler
   | [dst, src, incl] =>
     let inc := parsePairs incl
@@ -225,6 +244,8 @@ def dispatchSpan (op : String) (args : List String) : Option String :=
   | "sp.phone" => some (hPhone args)
   | "mg.ext" => some (hMgExt args)
   | "mg.pp" => some (hMgPp args)
+  | "sp.pushpop" => some (hPushPop args)
+  | "sp.mend" => some (hModelEnd args)
   | "mg.zh" => some (hMgZh args)
   | _ => none
 
